@@ -58,6 +58,9 @@ func runHammer(t []string) string {
 	}
 	runChf("chf reset", []string{"reset"})
 	concQueue, concAcked = nil, nil
+	// the CHF keeps a subscriber's CDR file at a fixed place (/tmp/<supi>.cdr): another check running the same operations at
+	// the same time must not write the file this one transfers - five digits of the identifier come from the process id
+	supi = saltSupi(supi)
 	other := supi + "9"
 	chfSupis[supi], chfSupis[other] = true, true
 	store.set(supi, 1, "100000000", "1")
